@@ -38,7 +38,8 @@ Definition spec_pac_entry (s : str) : hop :=
            match split_host_port hp with
            | None => HFail                               (* host:port cannot be parsed *)
            | Some (h, p) =>
-               if negb (valid_port16 p) then HFail       (* the port is not a port number *)
+               if negb (valid_host h) then HFail         (* no host, or a blank / control byte in it *)
+               else if negb (valid_port16 p) then HFail  (* the port is not a port number *)
                else match spec_keyword kw with
                | None => HDirect
                | Some None => HFail
